@@ -30,10 +30,12 @@ func checkC09(c *Ctx) {
 
 	// ---------------- R9.1 ----------------
 	c.Rule("R9.7", "BufferedWriteSyncer.Stop: atomic test-and-set, single close, wait with the mutex released (no double-close panic, no deadlock)", 1)
+	c.Rule("R9.15", "the observer hands out a copy of its entries, or its array after giving it up: a reader of a batch never shares memory with the cores that go on logging", 2)
 	c12Rules(c, "R9.1", "", "", "R9.7", "")
 	if ol := c.Named("go.uber.org/zap/zaptest/observer", "ObservedLogs"); c.Anchor("R9.1", "observer.ObservedLogs", ol != nil) {
 		guardedBy(c, "R9.1", ol, map[string]bool{"logs": true}, "mu", nil, func(Access) string { return "" })
 	}
+	c8ObserverHandsOutOwnStorage(c, "R9.15")
 	if sr := c.Named(ZapPath, "sinkRegistry"); c.Anchor("R9.1", "zap.sinkRegistry", sr != nil) {
 		guardedBy(c, "R9.1", sr, map[string]bool{"factories": true}, "mu", nil, func(Access) string { return "" })
 	}
